@@ -469,6 +469,36 @@ def witness_outcomes(tier):
                         res[tag] = ["accepted", names, m.model_dump(by_alias=True, exclude_none=True)]
                     except Exception as e:
                         res[tag] = ["rejected"]
+    # JSON-RPC envelopes with every id shape of the property's corpus, through the library's own parser
+    JM = sys.modules.get("chuk_mcp.protocol.messages.json_rpc_message") or importlib.import_module("chuk_mcp.protocol.messages.json_rpc_message")
+    ids = [0, -1, 7, 2 ** 63, 2 ** 64 - 1, "", "0", "123", "-7", "abc", "caf\u00e9"]
+    for i, rid in enumerate(ids):
+        for kind, wire in (
+            ("request", {"jsonrpc": "2.0", "id": rid, "method": "m", "params": {"a": None, "b": [None, 1]}}),
+            ("result", {"jsonrpc": "2.0", "id": rid, "result": {"x": {"y": None}}}),
+            ("error", {"jsonrpc": "2.0", "id": rid, "error": {"code": -32000, "message": "e", "data": None}}),
+        ):
+            tag = "envelope|%s|%d" % (kind, i)
+            try:
+                m = JM.parse_message(wire)
+                d = m.model_dump(exclude_none=True)
+                res[tag] = ["accepted", type(m).__name__, type(d.get("id")).__name__, d]
+            except Exception:
+                res[tag] = ["rejected"]
+    res["envelope|notification"] = ["accepted", JM.parse_message({"jsonrpc": "2.0", "method": "n"}).model_dump(exclude_none=True)]
+    for specific in ("JSONRPCRequest", "JSONRPCResponse", "JSONRPCError", "JSONRPCNotification"):
+        cls = getattr(JM, specific)
+        for i, rid in enumerate(ids):
+            wire = {"jsonrpc": "2.0", "method": "m"} if specific == "JSONRPCNotification" else (
+                {"jsonrpc": "2.0", "id": rid, "method": "m"} if specific == "JSONRPCRequest" else (
+                    {"jsonrpc": "2.0", "id": rid, "result": [1, None]} if specific == "JSONRPCResponse" else {"jsonrpc": "2.0", "id": rid, "error": {"code": 1, "message": "m"}}))
+            tag = "typed-envelope|%s|%d" % (specific, i)
+            try:
+                m = cls.model_validate(wire)
+                d = m.model_dump(exclude_none=True)
+                res[tag] = ["accepted", type(d.get("id")).__name__, d]
+            except Exception:
+                res[tag] = ["rejected"]
     # invariants
     R = MODELS["protocol.messages.roots.send_messages.Root"]
     C = MODELS["protocol.messages.completions.send_messages.CompletionResult"]
